@@ -7,7 +7,7 @@
     [Inv] = [InvS] /\ [InvD]. *)
 From Coq Require Import Ascii String List Bool PArith NArith ZArith QArith FMapPositive Permutation.
 From PTBase Require Import Exn PyStr.
-From P Require Import Assoc GeoState GeoEdit GeoEdit2 GeoStep Inv InvNames InvSimple Sets InvCol InvConn InvDel InvRefresh InvRename InvCompound InvSplit InvSplit2 InvSnap InvDecomp InvRefine InvCheck Reach Witness InvConseq.
+From P Require Import Assoc GeoState GeoEdit GeoEdit2 GeoStep Inv InvNames InvSimple Sets InvCol InvConn InvDel InvRefresh InvRename InvCompound InvSplit InvSplit2 InvSnap InvDecomp InvRefine InvCheck Reach Witness InvConseq InvLookup.
 Import ListNotations.
 Open Scope list_scope.
 
@@ -368,3 +368,33 @@ Theorem geo_invS_from_empty : forall cv a f ops g',
   all_pre preS (empty_geo cv a f) ops -> run (empty_geo cv a f) ops = Ok g' -> InvS g'.
 Proof. exact invS_from_empty. Qed.
 Print Assumptions geo_invS_from_empty.
+
+(** ** "the by-name lookups and ordered lists agree", for every state with a consistent object graph: every listed node /
+    column / connection / layer / well is what the lookup under its current name returns (connections under the pair of the
+    current names of their columns), and every lookup returns a listed object carrying that name *)
+Theorem lookups_find_every_listed_object : forall g, InvS g ->
+  (forall n, In n (nlist g) -> nget g (nn g n) = Some n) /\
+  (forall c, In c (clist g) -> cget g (cn g c) = Some c) /\
+  (forall k, In k (klist g) -> kget g (cn g (k0 g k), cn g (k1 g k)) = Some k) /\
+  (forall l, In l (llist g) -> lget g (ln g l) = Some l) /\
+  (forall w, In w (wlist g) -> wget g (wn g w) = Some w).
+Proof. exact lookups_find_listed. Qed.
+Print Assumptions lookups_find_every_listed_object.
+Theorem lookups_return_listed_objects_of_that_name : forall g, InvS g ->
+  (forall s n, nget g s = Some n -> In n (nlist g) /\ nn g n = s) /\
+  (forall s c, cget g s = Some c -> In c (clist g) /\ cn g c = s) /\
+  (forall key k, kget g key = Some k -> In k (klist g) /\ (cn g (k0 g k), cn g (k1 g k)) = key) /\
+  (forall s l, lget g s = Some l -> In l (llist g) /\ ln g l = s) /\
+  (forall s w, wget g s = Some w -> In w (wlist g) /\ wn g w = s).
+Proof. exact lookups_return_listed. Qed.
+Print Assumptions lookups_return_listed_objects_of_that_name.
+(** the nodes of a listed column are listed nodes that know the column *)
+Theorem column_nodes_know_their_column : forall g c n, InvS g -> In c (clist g) -> In n (cns g c) ->
+  In n (nlist g) /\ In c (ncs g n).
+Proof. exact column_nodes_know_column. Qed.
+Print Assumptions column_nodes_know_their_column.
+(** two listed connections with the same first and the same second column are one connection *)
+Theorem connections_with_the_same_ends_coincide : forall g k k', InvS g -> In k (klist g) -> In k' (klist g) ->
+  k0 g k = k0 g k' -> k1 g k = k1 g k' -> k = k'.
+Proof. exact same_ends_same_connection. Qed.
+Print Assumptions connections_with_the_same_ends_coincide.
